@@ -805,9 +805,19 @@ def write_evidence(prop_id, reg, results, tier, seed, wall, violations, known_li
         "not_covered": reg.get("not_covered", []),
     }
     if level != "proof":
-        cov["evaluations"] = max(n_ob, 1)
-        cov["distinct_nontrivial"] = max(n_ob, 2)
-        cov["rule"] = "one evaluation = one CBMC proof obligation generated from /repo's current source; all are distinct named obligations"
+        nontrivial = set()
+        for r in results:
+            for p_ in r.props:
+                if p_["kind"] in ("postcondition", "precondition", "loop_invariant_base", "loop_invariant_step",
+                                  "assigns", "assertion"):
+                    nontrivial.add((r.name, p_["name"]))
+        cov["evaluations"] = n_ob
+        cov["distinct_nontrivial"] = len(nontrivial)
+        cov["rule"] = ("one evaluation = one CBMC proof obligation generated from /repo's current source and decided "
+                       "on this run; non-trivial = obligations that come from a contract clause or a harness assertion "
+                       "(postcondition, precondition at a call, loop invariant, assigns/frame, assertion), counted as "
+                       "distinct (job, obligation name) pairs - the automatically generated pointer/bounds/overflow "
+                       "checks and the vacuity canary are not counted")
     ev = {"property_id": prop_id, "tier": tier, "seed": seed, "level": level, "coverage": cov,
           "assumptions": sorted(assumptions), "wall_s": round(wall, 1), "violations": violations}
     os.makedirs(os.path.join(VERIF, "evidence"), exist_ok=True)
